@@ -32,7 +32,7 @@ EPS = 2e-5      # float rounding at a 1.7e9 epoch (2^-22 s) with margin
 
 
 def plan(tier):
-    return [('seeded', 6000 if tier == 'quick' else 250000),
+    return [('seeded', 12000 if tier == 'quick' else 250000),
             ('jitter', 1500 if tier == 'quick' else 60000)]
 
 
